@@ -56,7 +56,7 @@ FUNCTION_COUNTERS = ["fn_PBKDF1", "fn_PBKDF2_fast", "fn_PBKDF2_generic_hash", "f
 DECIDING = FUNCTION_COUNTERS + ["pbkdf2_fast_path", "pbkdf2_generic_path", "multikey_HKDF", "multikey_scrypt", "multikey_SP800_108",
                                 "refusals_seen", "refusal_HKDF", "refusal_scrypt", "refusal_bcrypt", "refusal_PBKDF1",
                                 "bcrypt_check_accepted", "bcrypt_check_rejected", "oracle_pair_agreed",
-                                "bcrypt_pw71", "bcrypt_pw72", "hkdf_at_limit", "s2v_zero_components", "concurrent_kdf_calls", "s2v_reuse_histories"]
+                                "bcrypt_pw71", "bcrypt_pw72", "hkdf_at_limit", "s2v_zero_components", "concurrent_kdf_calls", "s2v_reuse_histories", "decoy_calls"]
 
 
 # =============================================================================================
@@ -286,6 +286,23 @@ def w_concurrent(spec, ctx, env):
     ctx.sample({"concurrent": "8 threads x 4 repetitions x (scrypt, PBKDF2 fast path, HKDF) on different inputs vs hashlib / reference"})
 
 
+_DECOY_N = [0]
+
+
+def decoy(ctx, fn):
+    """Before every third judged call the same function is called with the SAME secret and salt and one other parameter
+    changed (hash, cost, length, context).  The result is discarded: the judged call is still compared with the model for
+    its own parameters, so a derivation cached under too coarse a key turns into a wrong value."""
+    _DECOY_N[0] += 1
+    if _DECOY_N[0] % 3:
+        return
+    try:
+        fn()
+        ctx.count("decoy_calls")
+    except Exception:       # noqa  (parameter combination outside the domain: irrelevant to any verdict)
+        ctx.count("decoy_calls_failed")
+
+
 def got_value(ctx, func, o, expected, key_ok, what, witness):
     """o = outcome of a library call on an input inside the specified domain."""
     if o[0] == "exc":
@@ -384,6 +401,10 @@ def pbkdf2_case(ctx, env, hlabel, pw, salt, dklen, count, pw_str=False, salt_str
         call = lambda: KDF.PBKDF2(a_pw, a_salt, dklen, count, prf=libprf)
     if expected is None:
         return
+    from Crypto.Hash import SHA1 as _S1, SHA256 as _S256, SHA512 as _S512
+    decoy(ctx, lambda: (KDF.PBKDF2(a_pw, a_salt, dklen, count, hmac_hash_module=ctx.rng.choice([_S1, _S256, _S512])),
+                        KDF.PBKDF2(a_pw, a_salt, dklen + 1, count + 1, hmac_hash_module=_S1),
+                        KDF.PBKDF2(a_pw, a_salt, dklen, count, prf=lambda p_, s_: __import__("hmac").new(p_, s_, "md5").digest())))
     before = env.assist_calls
     ctx.op("PBKDF2", plabel, len(pw), len(salt), dklen, count)
     o = outcome(call)
@@ -621,6 +642,10 @@ def hkdf_case(ctx, env, h, master, salt, context, key_len, num_keys):
     w = lambda: {"call": "HKDF", "hash": h, "master": _hx(master), "salt": _hx(salt), "context": None if context is None else _hx(context),
                  "key_len": key_len, "num_keys": num_keys}
     kw = {} if context is None else {"context": context}
+    from Crypto.Hash import SHA1 as _S1, SHA256 as _S256, SHA512 as _S512
+    decoy(ctx, lambda: (KDF.HKDF(master, min(total, 20), salt, ctx.rng.choice([_S1, _S256, _S512]), 1, **kw),
+                        KDF.HKDF(master, total, salt, mod, 1, context=(context or b"") + b"x"),
+                        KDF.HKDF(master, max(1, total - 1), salt, mod, 1, **kw)))
     # the whole stream as ONE key
     o1 = outcome(lambda: KDF.HKDF(master, total, salt, mod, 1, **kw))
     got_value(ctx, "HKDF", o1, stream, "HKDF:wrong-value", "HKDF output differs from RFC 5869", lambda: dict(w(), key_len=total, num_keys=1))
@@ -697,6 +722,8 @@ def scrypt_case(ctx, env, pw, salt, key_len, N, r, p, num_keys, as_str=False):
     ctx.case(("scrypt", N, r, p, cc(len(pw), 64), cc(len(salt), 64), lc(total, 32), num_keys, as_str))
     w = lambda: {"call": "scrypt", "password": _hx(a_pw), "salt": _hx(a_salt), "key_len": key_len, "N": N, "r": r, "p": p,
                  "num_keys": num_keys}
+    decoy(ctx, lambda: (KDF.scrypt(a_pw, a_salt, total, 2 * N if N < 64 else N // 2, r, p), KDF.scrypt(a_pw, a_salt, total + 1, N, r, p + 1),
+                        KDF.scrypt(a_pw, a_salt, total, N, r + 1, p) if N * r < 4096 else None))
     o1 = outcome(lambda: KDF.scrypt(a_pw, a_salt, total, N, r, p))
     got_value(ctx, "scrypt", o1, stream, "scrypt:wrong-value", "scrypt output differs from RFC 7914",
               lambda: dict(w(), key_len=total, num_keys=1))
